@@ -90,7 +90,7 @@ struct Task {
   int api_obj = -1;
   // simulated pthread state
   std::map<int, void *> tls;
-  bool detached = false, joined = false, is_thread = false;
+  bool detached = false, joined = false, is_thread = false, started = false;
   void *retval = nullptr;
   int prio = 0;                 // PCT priority
   // spin detection
@@ -204,6 +204,7 @@ namespace alloc {
 void install();                                         // p_mem_set_vtable
 void run_begin(); void run_end();
 size_t outstanding_count();
+bool is_live(const void *p);                           // block currently allocated (exact start address)
 uint64_t total_allocs();
 std::string outstanding_desc(size_t max = 5);
 struct Mark { uint64_t seq; };
